@@ -403,7 +403,7 @@ def create_connection(address, timeout=_socket._GLOBAL_DEFAULT_TIMEOUT, source_a
         raise ConnectionRefusedError(111, f'sim: connection refused (fault) {dst}')
     if lst is None or lst.closed:
         raise ConnectionRefusedError(111, f'sim: nobody listens on {dst}')
-    src_ip = source_address[0] if source_address else host
+    src_ip = source_address[0] if source_address else (s.current.node or host)
     cli_addr = (src_ip, net.alloc_port())
     conn = Conn(len(net.conns), cli_addr, dst)
     net.conns.append(conn)
